@@ -14,13 +14,15 @@ VARIABLES l, alarms
 tvars == <<val, op, l, alarms>>
 
 Alarm(mon, e, fields, detail) ==
-  [mon |-> mon, type |-> e.v.type, path |-> e.path, scheme |-> e.scheme, fields |-> fields, detail |-> detail]
+  [mon |-> mon, type |-> e.v.type, path |-> e.path, scheme |-> e.scheme, fields |-> fields, detail |-> detail,
+   overwrite |-> ("over" \in DOMAIN e /\ e.over.type # "none")]
 
 TraceInit == l = 1 /\ alarms = {} /\ val = [type |-> "none"] /\ op = [kind |-> "init"]
 
 StepRT(e) ==
   /\ e.ev = "RT"
   /\ LET A0 == IF e.path \notin PathsOf(e.v.type) \/ e.v \notin ValuesOf(e.v.type)
+                    \/ e.over \notin OversOn(e.v.type, e.path)
                  THEN {Alarm("Conformance", e, {}, "not a value/path of Codec.tla")} ELSE {}
          A1 == IF ~Mon_RoundTripIdentity(e.v, e.path, e.err, e.p, e.rest)
                  THEN {Alarm("Mon_RoundTripIdentity", e,
@@ -31,7 +33,7 @@ StepRT(e) ==
          A2 == IF ~Mon_RoundTripHash(e.v, e.err, e.hasheq)
                  THEN {Alarm("Mon_RoundTripHash", e, {}, "hash of the decoded value differs")} ELSE {}
      IN alarms' = alarms \cup A0 \cup A1 \cup A2
-  /\ val' = e.v /\ op' = [kind |-> "roundtrip", path |-> e.path, result |-> e.p]
+  /\ val' = e.v /\ op' = [kind |-> "roundtrip", path |-> e.path, over |-> e.over, result |-> e.p]
 
 StepBad(e) ==
   /\ e.ev = "Bad"
